@@ -28,6 +28,8 @@ CONSTANTS Kind,      \* "fx" | "module" | "external"
           InitU1,    \* units held initially by u1, u2: base coin (fx, module) or tokens (external)
           InitU2,
           Amt,       \* amounts used by messages and direct token calls
+          RecvSet,   \* receivers named by ConvertCoin / ConvertERC20 (subset of Holder)
+          TRecvSet,  \* recipients of direct token transfers (subset of Holder)
           StepSet,   \* alphabet of program steps: records [k, n]
           ProgLen,   \* maximal number of steps of a program (1..3)
           ProgSet,   \* "all" | "main" (without the known scenario) | "known" (only it) | "none"
@@ -46,24 +48,28 @@ VARIABLES coin,      \* [Holder -> [Denom -> Nat]] bank balances
           mdAlias,   \* [Denom -> BOOLEAN]        listed as alias of "b" in the bank metadata (what the bridge keeper reads)
           pool,      \* value sitting in the eth module's outgoing transfer pool
           calls,     \* value sitting in the eth module's outgoing bridge calls
+          gift,      \* environment ledger: escrowed asset handed to the pair's escrow account gratuitously (a direct token
+                     \* transfer to the module of an externally-owned pair; a conversion whose coin receiver is the wrapper)
           nconv, ntok, ngov, nprog,
           op         \* [name, by, u, r, n, k, p, res]
 
-svars == <<coin, csupply, tok, supply, allow, reg, enabled, byDenom, byToken, aliasIdx, mdAlias, pool, calls,
+svars == <<coin, csupply, tok, supply, allow, reg, enabled, byDenom, byToken, aliasIdx, mdAlias, pool, calls, gift,
            nconv, ntok, ngov, nprog>>
 vars  == <<svars, op>>
 
 None    == "none"
 User    == {"u1", "u2"}
 UH      == {"u1", "u2", "exe"}                       \* user-side holders (exe = the executor contract)
-Holder  == {"u1", "u2", "exe", "mod", "wrap", "eth"} \* + erc20 module account, token contract, eth bridge module
+Holder  == {"u1", "u2", "exe", "mod", "wrap", "eth", "pre", "zero"} \* + erc20 module account, token contract, eth bridge
+                                                                     \* module account, crosschain precompile address, zero address
+Blocked == {"mod", "eth"}                            \* module accounts: the bank refuses them as coin receivers, and so does the conversion
 Denom   == IF HasAlias THEN {"b", "a"} ELSE {"b"}
 Owner   == {"u1", "exe"}
 Spender == {"u2", "exe", "pre"}                      \* pre = the crosschain precompile address
 
 Abs == [coin |-> coin, csupply |-> csupply, tok |-> tok, supply |-> supply, allow |-> allow, reg |-> reg,
         enabled |-> enabled, byDenom |-> byDenom, byToken |-> byToken, aliasIdx |-> aliasIdx, mdAlias |-> mdAlias,
-        pool |-> pool, calls |-> calls]
+        pool |-> pool, calls |-> calls, gift |-> gift]
 
 RECURSIVE SumSet(_, _)
 SumSet(S, f) == IF S = {} THEN 0 ELSE LET x == CHOOSE y \in S : TRUE IN f[x] + SumSet(S \ {x}, f)
@@ -92,7 +98,7 @@ Init ==
   /\ byToken = IF Kind = "fx" THEN "main" ELSE None
   /\ aliasIdx = [d \in Denom |-> None]
   /\ mdAlias = [d \in Denom |-> FALSE]
-  /\ pool = 0 /\ calls = 0
+  /\ pool = 0 /\ calls = 0 /\ gift = 0
   /\ nconv = 0 /\ ntok = 0 /\ ngov = 0 /\ nprog = 0
   /\ op = Op("Init", None, None, None, 0, None, <<>>, "ok")
 
@@ -111,7 +117,7 @@ Register(by) ==
      /\ aliasIdx' = [d \in Denom |-> IF d = "a" THEN "b" ELSE None]
      /\ mdAlias' = [d \in Denom |-> d = "a"]
      /\ ngov' = ngov + 1 /\ op' = this
-     /\ UNCHANGED <<coin, csupply, tok, supply, allow, pool, calls, nconv, ntok, nprog>>
+     /\ UNCHANGED <<coin, csupply, tok, supply, allow, pool, calls, gift, nconv, ntok, nprog>>
 
 (* MsgToggleTokenConversion, pair addressed by denom or by token address *)
 Toggle(by, key) ==
@@ -119,7 +125,7 @@ Toggle(by, key) ==
       okk  == by = "gov" /\ reg /\ (IF key = "denom" THEN byDenom["b"] = "main" ELSE byToken = "main")
   IN IF ~okk THEN Rej(this) ELSE
      /\ enabled' = ~enabled /\ ngov' = ngov + 1 /\ op' = this
-     /\ UNCHANGED <<coin, csupply, tok, supply, allow, reg, byDenom, byToken, aliasIdx, mdAlias, pool, calls, nconv, ntok, nprog>>
+     /\ UNCHANGED <<coin, csupply, tok, supply, allow, reg, byDenom, byToken, aliasIdx, mdAlias, pool, calls, gift, nconv, ntok, nprog>>
 
 (* MsgUpdateDenomAlias(denom = base, alias = al): adds the alias when unknown, removes it when it is *)
 (* the base's alias; al = "b" offers the base itself as alias (always refused).                      *)
@@ -130,13 +136,15 @@ UpdateAlias(by, al) ==
      /\ aliasIdx' = [aliasIdx EXCEPT ![al] = IF @ = None THEN "b" ELSE None]
      /\ mdAlias' = [mdAlias EXCEPT ![al] = aliasIdx[al] = None]
      /\ ngov' = ngov + 1 /\ op' = this
-     /\ UNCHANGED <<coin, csupply, tok, supply, allow, reg, enabled, byDenom, byToken, pool, calls, nconv, ntok, nprog>>
+     /\ UNCHANGED <<coin, csupply, tok, supply, allow, reg, enabled, byDenom, byToken, pool, calls, gift, nconv, ntok, nprog>>
 
 ---------------------------------------------------------------------------
 (* MsgConvertCoin: n base coins of u become n tokens of r *)
 ConvertCoin(u, n, r) ==
   LET this == Op("ConvertCoin", None, u, r, n, None, <<>>, "ok")
       okk  == /\ reg /\ byDenom["b"] = "main" /\ enabled /\ coin[u]["b"] >= n
+              /\ r \notin Blocked          \* a module account is refused as receiver
+              /\ r # "zero"                \* the token refuses the zero address
               /\ (Kind = "external" => tok["mod"] >= n)
   IN IF ~okk THEN Rej(this) ELSE
      /\ CASE Kind = "fx" ->          \* escrow, mint, escrow moved to the wrapper contract
@@ -150,14 +158,17 @@ ConvertCoin(u, n, r) ==
                /\ tok' = [tok EXCEPT !["mod"] = @ - n, ![r] = @ + n] /\ supply' = supply
      /\ csupply' = SupplyOf(coin')
      /\ nconv' = nconv + 1 /\ op' = this
-     /\ UNCHANGED <<allow, reg, enabled, byDenom, byToken, aliasIdx, mdAlias, pool, calls, ntok, ngov, nprog>>
+     /\ UNCHANGED <<allow, reg, enabled, byDenom, byToken, aliasIdx, mdAlias, pool, calls, gift, ntok, ngov, nprog>>
 
 (* MsgConvertERC20: n tokens of u become n base coins of r *)
 ConvertERC20(u, n, r) ==
   LET this == Op("ConvertERC20", None, u, r, n, None, <<>>, "ok")
       okk  == /\ reg /\ byToken = "main" /\ enabled /\ tok[u] >= n
+              /\ r \notin Blocked
               /\ (Kind = "fx" => coin["wrap"]["b"] >= n) /\ (Kind = "module" => coin["mod"]["b"] >= n)
   IN IF ~okk THEN Rej(this) ELSE
+     \* the wrapper named as coin receiver: the released escrow returns to the escrow account without tokens: a gift
+     /\ gift' = gift + (IF Kind = "fx" /\ r = "wrap" THEN n ELSE 0)
      /\ CASE Kind = "fx" ->
                /\ tok' = [tok EXCEPT ![u] = @ - n] /\ supply' = supply - n
                /\ coin' = [coin EXCEPT !["wrap"]["b"] = @ - n, ![r]["b"] = @ + n]
@@ -192,7 +203,7 @@ ConvertDenom(u, n, dir) ==
                                          ELSE [coin EXCEPT ![u]["a"] = @ - n, !["mod"]["a"] = @ + n, ![u]["b"] = @ + n])
      /\ csupply' = SupplyOf(coin')
      /\ nconv' = nconv + 1 /\ op' = this
-     /\ UNCHANGED <<tok, supply, allow, reg, enabled, byDenom, byToken, aliasIdx, mdAlias, pool, calls, ntok, ngov, nprog>>
+     /\ UNCHANGED <<tok, supply, allow, reg, enabled, byDenom, byToken, aliasIdx, mdAlias, pool, calls, gift, ntok, ngov, nprog>>
 
 (* wrapper contract only: deposit() with value n / withdraw(n) by an account *)
 Deposit(u, n) ==
@@ -203,7 +214,7 @@ Deposit(u, n) ==
      /\ tok' = [tok EXCEPT ![u] = @ + n] /\ supply' = supply + n
      /\ csupply' = SupplyOf(coin')
      /\ nconv' = nconv + 1 /\ op' = this
-     /\ UNCHANGED <<allow, reg, enabled, byDenom, byToken, aliasIdx, mdAlias, pool, calls, ntok, ngov, nprog>>
+     /\ UNCHANGED <<allow, reg, enabled, byDenom, byToken, aliasIdx, mdAlias, pool, calls, gift, ntok, ngov, nprog>>
 
 Withdraw(u, n) ==
   LET this == Op("Withdraw", None, u, None, n, None, <<>>, "ok")
@@ -213,15 +224,17 @@ Withdraw(u, n) ==
      /\ tok' = [tok EXCEPT ![u] = @ - n] /\ supply' = supply - n
      /\ csupply' = SupplyOf(coin')
      /\ nconv' = nconv + 1 /\ op' = this
-     /\ UNCHANGED <<allow, reg, enabled, byDenom, byToken, aliasIdx, mdAlias, pool, calls, ntok, ngov, nprog>>
+     /\ UNCHANGED <<allow, reg, enabled, byDenom, byToken, aliasIdx, mdAlias, pool, calls, gift, ntok, ngov, nprog>>
 
 ---------------------------------------------------------------------------
 (* direct token calls by accounts (real EVM transactions) *)
 Transfer(u, r, n) ==
   LET this == Op("Transfer", None, u, r, n, None, <<>>, "ok")
-      okk  == TokenExists /\ tok[u] >= n
+      okk  == TokenExists /\ tok[u] >= n /\ r # "zero"
   IN IF ~okk THEN Rej(this) ELSE
      /\ tok' = [tok EXCEPT ![u] = @ - n, ![r] = @ + n]
+     \* tokens sent straight to the escrow account of an externally-owned pair back no coin: a gift
+     /\ gift' = gift + (IF Kind = "external" /\ r = "mod" THEN n ELSE 0)
      /\ ntok' = ntok + 1 /\ op' = this
      /\ UNCHANGED <<coin, csupply, supply, allow, reg, enabled, byDenom, byToken, aliasIdx, mdAlias, pool, calls, nconv, ngov, nprog>>
 
@@ -230,7 +243,7 @@ Approve(o, s, n) ==
   IN IF ~TokenExists THEN Rej(this) ELSE
      /\ allow' = [allow EXCEPT ![o][s] = n]
      /\ ntok' = ntok + 1 /\ op' = this
-     /\ UNCHANGED <<coin, csupply, tok, supply, reg, enabled, byDenom, byToken, aliasIdx, mdAlias, pool, calls, nconv, ngov, nprog>>
+     /\ UNCHANGED <<coin, csupply, tok, supply, reg, enabled, byDenom, byToken, aliasIdx, mdAlias, pool, calls, gift, nconv, ngov, nprog>>
 
 (* transferFrom(u1, u2, n) sent by u2 *)
 TransferFrom(n) ==
@@ -240,7 +253,7 @@ TransferFrom(n) ==
      /\ allow' = [allow EXCEPT !["u1"]["u2"] = @ - n]
      /\ tok' = [tok EXCEPT !["u1"] = @ - n, !["u2"] = @ + n]
      /\ ntok' = ntok + 1 /\ op' = this
-     /\ UNCHANGED <<coin, csupply, supply, reg, enabled, byDenom, byToken, aliasIdx, mdAlias, pool, calls, nconv, ngov, nprog>>
+     /\ UNCHANGED <<coin, csupply, supply, reg, enabled, byDenom, byToken, aliasIdx, mdAlias, pool, calls, gift, nconv, ngov, nprog>>
 
 ---------------------------------------------------------------------------
 (* PROGRAMS.  A step is [k, n]:                                            *)
@@ -317,17 +330,16 @@ RunProgram(p) ==
      /\ tok' = r.tok /\ supply' = r.supply /\ allow' = r.allow /\ coin' = r.coin /\ pool' = r.pool /\ calls' = r.calls
      /\ csupply' = SupplyOf(coin')
      /\ nprog' = nprog + 1 /\ op' = this
-     /\ UNCHANGED <<reg, enabled, byDenom, byToken, aliasIdx, mdAlias, nconv, ntok, ngov>>
+     /\ UNCHANGED <<reg, enabled, byDenom, byToken, aliasIdx, mdAlias, gift, nconv, ntok, ngov>>
 
 Probe == op' = Op("Probe", None, None, None, 0, None, <<>>, "ok") /\ UNCHANGED svars
 
-Recv == {"u1", "u2", "exe"}
 Next ==
   \/ \E by \in {"gov", "u1"} : Register(by) \/ (\E key \in {"denom", "token"} : Toggle(by, key)) \/ (\E al \in Denom : UpdateAlias(by, al))
-  \/ \E u \in User, n \in Amt, r \in Recv : ConvertCoin(u, n, r) \/ ConvertERC20(u, n, r)
+  \/ \E u \in User, n \in Amt, r \in RecvSet : ConvertCoin(u, n, r) \/ ConvertERC20(u, n, r)
   \/ \E u \in User, n \in Amt, dir \in (IF HasAlias THEN {"toAlias", "toBase"} ELSE {}) : ConvertDenom(u, n, dir)
   \/ \E n \in Amt : Deposit("u1", n) \/ Withdraw("u1", n) \/ TransferFrom(n)
-  \/ \E u \in User, n \in Amt : \E r \in Recv \ {u} : Transfer(u, r, n)
+  \/ \E u \in User, n \in Amt : \E r \in TRecvSet \ {u} : Transfer(u, r, n)
   \/ \E s \in {"exe", "u2"}, n \in Amt : Approve("u1", s, n)
   \/ \E p \in Programs : RunProgram(p)
   \/ Probe
@@ -342,13 +354,13 @@ SumTok(t) == SumSet(Holder, t)
 
 \* module-owned token: coins escrowed for it (by the module, or by the wrapper contract for the native coin) = total supply
 C08_EscrowEqualsSupply ==
-  /\ Kind = "module" => coin["mod"]["b"] = supply
-  /\ Kind = "fx" => coin["wrap"]["b"] = supply
+  /\ Kind = "module" => coin["mod"]["b"] = supply + gift
+  /\ Kind = "fx" => coin["wrap"]["b"] = supply + gift
 
 \* externally-owned token: tokens escrowed by the module = supply of its coin over base + every bridge denomination
 \* (coins in the module's OWN account are its custody of converted denominations, not claims on the escrow)
 C08_LockedEqualsCoinSupply ==
-  Kind = "external" => tok["mod"] = SumSet(Denom, [d \in Denom |-> csupply[d] - coin["mod"][d]])
+  Kind = "external" => tok["mod"] = SumSet(Denom, [d \in Denom |-> csupply[d] - coin["mod"][d]]) + gift
 
 \* every ERC-20's balances sum to its total supply
 C08_BalancesSumToSupply == SumTok(tok) = supply
@@ -358,7 +370,10 @@ C08_CoinsAccounted == \A d \in Denom : csupply[d] = SumSet(Holder, [h \in Holder
 
 \* conversions neither create nor destroy value: what users and contracts hold in either form, plus what is on its way out
 \* through the bridge, is constant
-TotalValue == SumSet(UH, [h \in UH |-> tok[h] + SumSet(Denom, coin[h])]) + pool + calls
+\* holders of claims: everybody except the escrow account of the respective asset and the bridge module's coin custody
+TokH  == IF Kind = "external" THEN Holder \ {"mod"} ELSE Holder
+CoinH == (Holder \ {"mod", "eth"}) \ (IF Kind = "fx" THEN {"wrap"} ELSE {})
+TotalValue == SumSet(TokH, tok) + SumSet(CoinH, [h \in CoinH |-> SumSet(Denom, coin[h])]) + pool + calls + gift
 C08_ValueConserved == TotalValue = InitU1 + InitU2
 
 \* the denom, contract and alias indexes describe the same set of pairs
@@ -370,27 +385,33 @@ C08_IndexesAgree ==
   /\ \A d \in Denom : aliasIdx[d] # None => reg /\ d # "b" /\ aliasIdx[d] = "b"
   /\ \A d \in Denom : mdAlias[d] <=> aliasIdx[d] = "b"
 
-\* a conversion moves exactly the requested amount from sender to receiver and nothing else
-UCoin(c) == [h \in UH |-> c[h]]
-UTok(t)  == [h \in UH |-> t[h]]
+\* a conversion moves exactly the requested amount from sender to receiver and nothing else: among the holders of
+\* claims (TokH, CoinH) only the sender's and the receiver's holdings change, by exactly n; the one exception is a
+\* receiver that IS the escrow account of the asset it is to receive, which the environment ledger records as a gift
+RTok(t)  == [h \in TokH |-> t[h]]
+RCoin(c) == [h \in CoinH |-> c[h]]
+Same(o) == allow' = allow /\ pool' = pool /\ calls' = calls /\ coin'["eth"] = coin["eth"]
 A_C08_MovesExactly ==
   LET o == op' IN
   /\ (o.name = "ConvertCoin" /\ o.res = "ok") =>
-        /\ UCoin(coin') = [UCoin(coin) EXCEPT ![o.u]["b"] = @ - o.n]
-        /\ UTok(tok') = [UTok(tok) EXCEPT ![o.r] = @ + o.n]
-        /\ coin'["eth"] = coin["eth"] /\ allow' = allow /\ pool' = pool /\ calls' = calls
+        /\ o.u \in CoinH /\ o.r \in TokH
+        /\ RCoin(coin') = [RCoin(coin) EXCEPT ![o.u]["b"] = @ - o.n]
+        /\ RTok(tok') = [RTok(tok) EXCEPT ![o.r] = @ + o.n]
+        /\ gift' = gift /\ Same(o)
   /\ (o.name = "ConvertERC20" /\ o.res = "ok") =>
-        /\ UTok(tok') = [UTok(tok) EXCEPT ![o.u] = @ - o.n]
-        /\ UCoin(coin') = [UCoin(coin) EXCEPT ![o.r]["b"] = @ + o.n]
-        /\ coin'["eth"] = coin["eth"] /\ allow' = allow /\ pool' = pool /\ calls' = calls
+        /\ o.u \in TokH
+        /\ RTok(tok') = [RTok(tok) EXCEPT ![o.u] = @ - o.n]
+        /\ IF o.r \in CoinH THEN RCoin(coin') = [RCoin(coin) EXCEPT ![o.r]["b"] = @ + o.n] /\ gift' = gift
+           ELSE Kind = "fx" /\ o.r = "wrap" /\ RCoin(coin') = RCoin(coin) /\ gift' = gift + o.n
+        /\ Same(o)
   /\ (o.name = "ConvertDenom" /\ o.res = "ok") =>
-        /\ UCoin(coin') = [UCoin(coin) EXCEPT ![o.u][IF o.k = "toAlias" THEN "b" ELSE "a"] = @ - o.n,
+        /\ RCoin(coin') = [RCoin(coin) EXCEPT ![o.u][IF o.k = "toAlias" THEN "b" ELSE "a"] = @ - o.n,
                                               ![o.u][IF o.k = "toAlias" THEN "a" ELSE "b"] = @ + o.n]
-        /\ tok' = tok /\ supply' = supply /\ coin'["eth"] = coin["eth"] /\ allow' = allow /\ pool' = pool /\ calls' = calls
+        /\ tok' = tok /\ supply' = supply /\ gift' = gift /\ Same(o)
 C08_MovesExactly == [][A_C08_MovesExactly]_vars
 
 \* a refused operation (in particular a refused conversion or a reverted contract transaction) changes nothing
-A_C08_RefusedChangesNothing == op'.res = "rej" => UNCHANGED <<coin, csupply, tok, supply, allow, reg, enabled, byDenom, byToken, aliasIdx, mdAlias, pool, calls>>
+A_C08_RefusedChangesNothing == op'.res = "rej" => UNCHANGED <<coin, csupply, tok, supply, allow, reg, enabled, byDenom, byToken, aliasIdx, mdAlias, pool, calls, gift>>
 C08_RefusedChangesNothing == [][A_C08_RefusedChangesNothing]_vars
 
 ---------------------------------------------------------------------------
